@@ -180,6 +180,20 @@ POSITIONS = [
 ]
 
 
+# code points of the characters the line lexer gives a meaning to outside quotes (separator, comment, parentheses), the quote and the backslash
+SPECIAL_CHARS = [0x20, 0x23, 0x27, 0x28, 0x29, 0x2c, 0x5c]
+
+# backslash escapes `unicode_escape` decodes to one character
+ESCAPES = [(r"'\n'", 10), (r"'\t'", 9), (r"'\r'", 13), (r"'\0'", 0), (r"'\''", 39), (r"""'\"'""", 34), (r"'\x41'", 0x41), (r"'\x2c'", 0x2c),
+           (r"'\x7f'", 0x7f), (r"'\101'", 0o101), (r"'\u0041'", 0x41), (r"'\u1234'", 0x1234), (r"'\U0001f600'", 0x1f600), (r"'\a'", 7),
+           (r"'\\'", 92)]
+
+
+def char_literal(code):
+    """the documented spelling of a character: the character between single quotes; the backslash is written twice"""
+    return "'\\\\'" if code == 0x5c else "'%s'" % chr(code)
+
+
 def subst_case(args):
     seedv, idx, tier = args
     os.environ['VERIF_SEED'] = str(seedv)
@@ -188,7 +202,8 @@ def subst_case(args):
     pname, tmpl, okfn = POSITIONS[idx % len(POSITIONS)]
     for _ in range(50):
         v = rnd.choice([0, 1, 2, 5, 8, 15, 16, 31, 32, -1, -32, -33, 2047, -2048, 255, 0x800, 0xfffff, 0x12345678, -2, 6, 254, -256, 2046,
-                        rnd.randrange(-40, 40), rnd.randrange(-2048, 2048), rnd.randrange(0, 1 << 32)])
+                        rnd.randrange(-40, 40), rnd.randrange(-2048, 2048), rnd.randrange(0, 1 << 32),
+                        rnd.choice(SPECIAL_CHARS), rnd.randrange(0x20, 0x7f)])
         if okfn(v):
             break
     # names that begin like a directive, a mnemonic or a register are still just names
@@ -198,7 +213,10 @@ def subst_case(args):
     post = ['HERE:', 'addi x0 x0 0']
     lit = str(v) if rnd.random() < 0.5 or v < 0 else hex(v)
     defs = ['%s = %s' % (name, lit)]
-    if rnd.random() < 0.3:
+    if 0x20 <= v < 0x7f and rnd.random() < 0.6:
+        # the constant defined by a quoted character: blank, comma, '#', parentheses and the quote are characters like any other
+        defs = ['%s = %s%s' % (name, char_literal(v), rnd.choice(['', '', '  # the character ' + chr(v), " # it's %d" % v]))]
+    elif rnd.random() < 0.3:
         # an earlier definition of the same name, superseded (possibly in terms of itself) before the use
         first = rnd.choice([v + 1, 0, -v, 7])
         defs = ['%s = %d' % (name, first), '%s = %s - %d' % (name, name, first - v)] if rnd.random() < 0.5 else ['%s = %d' % (name, first)] + defs
@@ -229,16 +247,6 @@ def subst_case(args):
     return out
 
 
-def cls_char_literal_special(case):
-    """KF-C: the character of the literal is one the line lexer treats specially before the
-    expression is evaluated: comma, '#', '(' , ')' , a quote or a backslash"""
-    c = case.get('char')
-    return c in (',', '#', '(', ')', "'", '\\', '"')
-
-
-known.CLASSES['char-literal-special'] = cls_char_literal_special
-
-
 def run(tier, replay):
     prop = 'C11'
     asm = progs.get_asm()
@@ -260,7 +268,19 @@ def run(tier, replay):
             want = {k: int(v) for k, v in (c.get('want') or {}).items()}
             bad = res.status != 'ok' or any(res.constants.get(k) != v for k, v in want.items())
             print(res.status, dict(res.constants), 'wanted', want)
+            if c.get('literal'):
+                ref = progs.assemble_chunks(asm, c['literal'], False)
+                print('bytes', (res.bytes or b'').hex(), '| with the values written as numbers:', (ref.bytes or b'').hex())
+                bad = bad or (res.status, res.bytes) != (ref.status, ref.bytes)
             if bad:
+                print('VIOLATION property=C11 replay={}'.format(replay))
+                return 1
+            print('replayed case no longer fails')
+            return 0
+        if c.get('kind') == 'char-refused':
+            res = progs.assemble_chunks(asm, c['src'], False)
+            print(res.status, res.exc)
+            if res.status != 'asmerr':
                 print('VIOLATION property=C11 replay={}'.format(replay))
                 return 1
             print('replayed case no longer fails')
@@ -287,22 +307,49 @@ def run(tier, replay):
             rep.violation(msg, dict(case=dict(kind=r['kind'], src=r['src'], literal=r.get('literal'), want=r.get('want'), problem=msg)))
         if len(rep.samples) < 4 and r['kind'] == 'expr' and r['status'] == 'ok':
             rep.sample(dict(src=r['src'], constants=r['want']))
-    # every printable ASCII character literal
+    # every printable ASCII character literal (the backslash is written '\\'), alone on its line and with a comment behind it,
+    # some escapes, and the same literal as an immediate / data value; the Lean model must agree on each program
+    char_cases = []
     for code in range(0x20, 0x7f):
-        ch = chr(code)
-        src = "K = '%s'\n" % ch
+        lit = char_literal(code)
+        char_cases.append((chr(code), "K = %s\n" % lit, {'K': code}, None))
+        char_cases.append((chr(code), "K = %s  # it's the character %s, isn't it\n" % (lit, chr(code)), {'K': code}, None))
+        char_cases.append((chr(code), "    db %s\n    li x5, %s\n" % (lit, lit), {}, "    db %d\n    li x5, %d\n" % (code, code)))
+    for lit, code in ESCAPES:
+        char_cases.append((lit, "K = %s\n" % lit, {'K': code}, None))
+    for code in SPECIAL_CHARS:
+        lit = char_literal(code)
+        char_cases.append((chr(code), "    lw x9, %s(x8) # %s\n    addi x5, x6, %%lo(%s)\n" % (lit, lit, lit),
+                           {}, "    lw x9, %d(x8)\n    addi x5, x6, %%lo(%d)\n" % (code, code)))
+    replies = common.drv([corr.request(src, False) for _, src, _, _ in char_cases])
+    for (ch, src, want, literal), m in zip(char_cases, replies):
         res = progs.assemble_chunks(asm, src, False)
         rep.evaluations += 1
-        rep.nontrivial(('char', code))
-        ok = res.status == 'ok' and res.constants.get('K') == code
+        rep.nontrivial(('char', src))
+        ok = res.status == 'ok' and all(res.constants.get(k) == v for k, v in want.items())
+        problem = "{!r} gives {} {}".format(src, res.status + ':' + str(res.exc), dict(res.constants))
+        if ok and literal is not None:
+            ref = progs.assemble_chunks(asm, literal, False)
+            ok = (res.status, res.bytes) == (ref.status, ref.bytes)
+            problem = "{!r} gives {} but with the code points written as numbers {}".format(src, (res.bytes or b'').hex(), (ref.bytes or b'').hex())
         rep.count('char_' + ('ok' if ok else 'bad'))
+        v2 = corr.compare(m, res)
+        rep.count('model_vs_impl_' + v2)
+        if v2 == 'differ':
+            diffs.append(dict(src=src, model=m[:200], impl=corr.canon_impl(res)[:200]))
         if not ok:
-            case = dict(kind='char', src=src, char=ch, want={'K': str(code)},
-                        problem="K = '{}' gives {} {}".format(ch, res.status + ':' + str(res.exc), dict(res.constants)))
+            case = dict(kind='char', src=src, char=ch, literal=literal, want={k: str(v) for k, v in want.items()}, problem=problem)
             if kf.matches(case):
                 continue
-            rep.violation("character literal '{}' (0x{:02x}): {} {} instead of {}".format(
-                ch, code, res.status + ':' + str(res.exc), dict(res.constants), code), dict(case=case))
+            rep.violation("character literal {!r}: {}".format(ch, problem), dict(case=case))
+    # a lone backslash between quotes is not a character literal (the backslash is written '\\'): refused, as an AssemblerError
+    for src in ["K = '\\'\n", "    addi x5, x6, '\\'\n", "K = '\\' # don't\n"]:
+        res = progs.assemble_chunks(asm, src, False)
+        rep.evaluations += 1
+        rep.count('char_lone_backslash_' + res.status)
+        if res.status != 'asmerr':
+            rep.violation("{!r} must be refused with an AssemblerError, got {}".format(src, res.status + ':' + str(res.exc)),
+                          dict(case=dict(kind='char-refused', src=src, problem='not refused with an AssemblerError: ' + res.status)))
     kf.report(rep)
     rep.cov['programs'] = len(results)
     rep.cov['rule'] = ('constant definitions from seeded expression trees (depth <= 5) over + - * // % << >> & | ^ unary - ~ + and parentheses, '
